@@ -264,7 +264,10 @@ def live_handler_step(c, kind, n=1, allow_meanwhile=True, allow_errors=True, all
         sizes.append(size)
     fail_until = c.choose("api_error_on_attempts", [0, 1, 2, 3, 4]) if allow_errors else 0  # attempts 1..k raise BetfairError
     err_kind = c.choose("error_kind", ["BetfairError", "Exception"]) if fail_until else None
-    meanwhile = [c.choose("o%d_completes_meanwhile" % i, [False, True]) if (allow_meanwhile and kind != OrderPackageType.PLACE) else False for i in range(n)]
+    # the order stream may report an order complete while the request is in flight: after the request reached the exchange (True) or - for a
+    # replace - already before the worker thread builds the instructions ("before-send": thread-pool latency)
+    meanwhile = [c.choose("o%d_completes_meanwhile" % i, [False, True] + (["before-send"] if kind == OrderPackageType.REPLACE and n > 1 else []))
+                 if (allow_meanwhile and kind != OrderPackageType.PLACE) else False for i in range(n)]
     if kind == OrderPackageType.PLACE and allow_meanwhile:
         meanwhile = [c.choose("o%d_stream_first" % i, [False, True]) for i in range(n)]
     outcomes = []
@@ -327,8 +330,9 @@ def live_handler_step(c, kind, n=1, allow_meanwhile=True, allow_errors=True, all
         reps = []
         for i, o in enumerate(orders):
             oc = outcomes[i]
-            if kind == OrderPackageType.REPLACE and meanwhile[i] == "before-send":
-                continue  # flumine does not send a replace instruction for an order that is already complete
+            if kind == OrderPackageType.REPLACE and not any(ins.get("betId") == o.bet_id for ins in instructions):
+                continue  # the exchange answers the instructions it received
+            state.setdefault("reported", []).append(oc)
             if kind == OrderPackageType.PLACE:
                 reps.append(place_report(oc["status"], oc["order_status"], str(700 + i) if oc["status"] == "SUCCESS" else None,
                                          None if oc["status"] == "SUCCESS" else "ERROR_IN_ORDER",
@@ -405,7 +409,7 @@ def c12_obligations(c, w):
         if kind in (OrderPackageType.CANCEL, OrderPackageType.UPDATE, OrderPackageType.REPLACE):
             delivered = outcomes if w["misorder"] != "last-missing" else outcomes[:-1]
             if kind == OrderPackageType.REPLACE:
-                delivered = [oc for oc, mw_ in zip(outcomes, w["meanwhile"]) if mw_ != "before-send"]
+                delivered = w["state"].get("reported", [])
             exp_failed = len([oc for oc in delivered if oc["status"] == "FAILURE"])
     ctl = [x for x in w["client"].trading_controls if x.NAME == "MAX_TRANSACTION_COUNT"][0]
     c.ob("txn-count.bets", ctl.transaction_count == exp_bets, counted=ctl.transaction_count, expected=exp_bets)
